@@ -141,6 +141,28 @@ def multi_graph(rnd, inst_prop=M.RDF_TYPE):
     return T
 
 
+def sources_graph(rnd):
+    """incoming links of one property from subjects of several classes: a target class T whose instances are linked by subjects of
+    classes S0..Sk (IRI nodes, one class each) with very different frequencies; the rare source is often the first in the document"""
+    nt = rnd.randint(3, 6)
+    targets = [M.iri(EX + "t%d" % i) for i in range(nt)]
+    T = [(x, M.RDF_TYPE, M.iri(EX + "T")) for x in targets]
+    k = rnd.randint(2, 3)
+    first = []
+    for c in range(k):
+        srcs = [M.iri(EX + "s%d_%d" % (c, j)) for j in range(rnd.randint(1, 3))]
+        T += [(x, M.RDF_TYPE, M.iri(EX + "S%d" % c)) for x in srcs]
+        share = [1, nt - 1, nt][c] if c < 3 else nt        # S0 reaches one target, the others nearly all
+        for x in rnd.sample(targets, max(1, min(nt, share))):
+            t = (rnd.choice(srcs), EX + "wrote", x)
+            (first if c == 0 else T).append(t)
+    if rnd.random() < .4:
+        T += [(rnd.choice(targets), EX + "cites", rnd.choice(targets)) for _ in range(2)]
+    T = sorted(set(T), key=str)
+    rnd.shuffle(T)
+    return (first + [t for t in T if t not in first]) if rnd.random() < .6 else T + first
+
+
 def dense_graph(rnd, inst_prop=M.RDF_TYPE):
     """few nodes, many links: 3-5 subjects (40 % blank), 1-2 classes, 1-2 properties, 0-4 node-valued objects per
     (subject, property) drawn from IRI and blank nodes of the same classes: mixed node kinds with shape references"""
